@@ -6,7 +6,7 @@ from common import *
 import engine, javagen, qrun, querygen, scan
 
 N = {  # tier -> property -> number of generated queries (before variants)
-    'quick': dict(C01=350, C02=350, C10=900, C11=220, C12=120, C13=160, C14=160, C15=120, C16=60),
+    'quick': dict(C01=350, C02=350, C10=600, C11=220, C12=70, C13=120, C14=160, C15=120, C16=60),
     'thorough': dict(C01=6000, C02=6000, C10=30000, C11=3000, C12=2500, C13=3000, C14=3000, C15=1500, C16=600),
 }
 
@@ -682,7 +682,7 @@ def check_c12(c, result):
                 break
     # the same laws where the candidate combinations run into the tens of thousands (two populous kinds): whatever
     # batches, chunks or streams the candidates must still give set operations
-    NB = 220
+    NB = 190 if c.tier == 'quick' else 260
     bigproj = c.work + '/bigproj'
     src = 'class Big {\n' + ''.join('  int f%d = %d;\n' % (k, k) for k in range(NB)) + ''.join('  void m%d() { }\n' % k for k in range(NB)) + '}\n'
     qrun.write_project(bigproj, [('Big.java', src.encode())])
@@ -690,15 +690,15 @@ def check_c12(c, result):
     head = 'FROM variable_declaration AS a, method_declaration AS b WHERE '
     tail = ' SELECT a.getName(), b.getName()'
     big = [('bigA', head + A + tail), ('bigB', head + Bq + tail), ('bigAND', head + '(%s) && (%s)' % (A, Bq) + tail), ('bigOR', head + '(%s) || (%s)' % (A, Bq) + tail),
-           ('bigCOM', head + '(%s) && (%s)' % (Bq, A) + tail), ('bigNN', head + '!(!(%s))' % A + tail), ('bigABS', head + '(%s) && ((%s) || (%s))' % (A, A, Bq) + tail),
-           ('bigC', head + Cq + tail), ('bigDIS', head + '(%s) && ((%s) || (%s))' % (A, Bq, Cq) + tail)]
+           ('bigCOM', head + '(%s) && (%s)' % (Bq, A) + tail), ('bigNN', head + '!(!(%s))' % A + tail)] + ([('bigABS', head + '(%s) && ((%s) || (%s))' % (A, A, Bq) + tail),
+           ('bigC', head + Cq + tail), ('bigDIS', head + '(%s) && ((%s) || (%s))' % (A, Bq, Cq) + tail)] if c.tier == 'thorough' else [])
     rb, _, _ = c.run(big, project=bigproj)
     c.stats['c12_big_product'] = NB * NB
     if all(rb.get(q_, ('', ''))[0] == 'ok' for q_, _ in big):
         R = {q_: Counter(map(tuple, qrun.parse_result(rb[q_][1])[1] or [])) for q_, _ in big}
         for name, got, exp in [('and = intersection', R['bigAND'], R['bigA'] & R['bigB']), ('or = union', R['bigOR'], R['bigA'] | R['bigB']),
-                               ('commutation &&', R['bigCOM'], R['bigAND']), ('double negation', R['bigNN'], R['bigA']), ('absorption', R['bigABS'], R['bigA']),
-                               ('distribution', R['bigDIS'], (R['bigA'] & R['bigB']) | (R['bigA'] & R['bigC']))]:
+                               ('commutation &&', R['bigCOM'], R['bigAND']), ('double negation', R['bigNN'], R['bigA'])] + ([('absorption', R['bigABS'], R['bigA']),
+                               ('distribution', R['bigDIS'], (R['bigA'] & R['bigB']) | (R['bigA'] & R['bigC']))] if c.tier == 'thorough' else []):
             c.stats['c12_laws_checked'] += 1
             if got != exp or (name == 'and = intersection' and len(exp) != 4):
                 result.violations.append(payload_replay('C12', 'boolean connectives are not set operations over %d candidate combinations: %s' % (NB * NB, name), [t for _, t in big],
@@ -1710,7 +1710,7 @@ def check_c10_c11(c, result):
                                               how='pathfinder query --project D --output json --query <query>; exit status / panic'))
                 break
     if pid == 'C10':
-        env_matrix_cli(c, result, 'C10', ['FROM class_declaration AS cd WHERE cd.getName() != "zz" SELECT cd.getName()', 'FROM WHERE'], modes=('json',))
+        env_matrix_cli(c, result, 'C10', ['FROM class_declaration AS cd WHERE cd.getName() != "zz" SELECT cd.getName()'] + (['FROM WHERE'] if c.tier == 'thorough' else []), modes=('json',))
         # candidate counts x CPU counts: a tower of directories with one method each, scanned from every level
         # (n = 1 .. K candidates), under several GOMAXPROCS: what splits the candidates into chunks must do so for every n
         K = 190 if c.tier == 'quick' else 700
@@ -1723,7 +1723,7 @@ def check_c10_c11(c, result):
         sweep_q = [('sw0', 'FROM method_declaration AS m WHERE m.getName() != "zz" SELECT m.getName()'), ('sw1', 'FROM method_declaration AS m WHERE m.getName() SELECT m'),
                    ('sw2', 'FROM method_declaration AS m SELECT m.getName()')]
         procs = ['16', '24', '64', '3', '8', '2', '48', '12']
-        ns = list(range(126, K + 1)) if c.tier == 'quick' else list(range(1, K + 1))
+        ns = list(range(128, K + 1, 2)) + [129, 131, 133, 145, 147, 161, 163, 177, 179] if c.tier == 'quick' else list(range(1, K + 1))
         for j, n in enumerate(ns):
             path = tower + '/d' * (K - n + 1)
             for pr in ([procs[j % len(procs)]] if c.tier == 'quick' else procs[:6]):
